@@ -263,8 +263,6 @@ struct Scen {
     /// queries are compared and reported under this class instead of being judged by the case oracle
     window: Option<&'static str>,
     window_reported: bool,
-    /// the window stays open until the end of the scenario
-    sticky_window: bool,
     /// the last DML statement returned an error
     last_failed: bool,
     schema: Vec<(u64, bool)>,
@@ -480,7 +478,7 @@ fn new_scen_with(schema: Vec<(u64, bool)>, btree_budget: Option<usize>) -> Scen 
         Some(e) => e.create_table("t", Schema::new(cols)).expect("create table"),
         None => router.relational().create_table("t", Schema::new(cols)).expect("create table"),
     }
-    Scen { router, own, tx: None, window: None, window_reported: false, sticky_window: false, last_failed: false, schema, cur: vec![], steps: vec![], human: vec![], nontrivial: false }
+    Scen { router, own, tx: None, window: None, window_reported: false, last_failed: false, schema, cur: vec![], steps: vec![], human: vec![], nontrivial: false }
 }
 
 fn do_insert(s: &mut Scen, vals: Vec<V>, dist: &mut Dist) {
@@ -497,7 +495,7 @@ fn do_insert(s: &mut Scen, vals: Vec<V>, dist: &mut Dist) {
     let post = s.refresh();
     dist.hit(if ret.is_some() { "op.insert" } else { "op.insert_rejected" });
     s.last_failed = ret.is_none();
-    if (s.tx.is_some() && ret.is_none()) || s.sticky_window {
+    if s.tx.is_some() && ret.is_none() {
         // a statement that failed inside an open transaction keeps its partial effects until the
         // rollback: not judged (the transaction is resolved by the caller), only re-synchronised
         s.steps.push(format!("SSync {}", dump_coq(&post)));
@@ -519,7 +517,7 @@ fn do_update(s: &mut Scen, c: &C, sets: Vec<(u64, V)>, dist: &mut Dist) {
         s.nontrivial = true;
     }
     s.last_failed = ret.is_none();
-    if (s.tx.is_some() && ret.is_none()) || s.sticky_window {
+    if s.tx.is_some() && ret.is_none() {
         s.steps.push(format!("SSync {}", dump_coq(&post)));
     } else {
         s.steps.push(format!(
@@ -545,7 +543,7 @@ fn do_delete(s: &mut Scen, c: &C, dist: &mut Dist) {
         s.nontrivial = true;
     }
     s.last_failed = ret.is_none();
-    if (s.tx.is_some() && ret.is_none()) || s.sticky_window {
+    if s.tx.is_some() && ret.is_none() {
         s.steps.push(format!("SSync {}", dump_coq(&post)));
     } else {
         s.steps.push(format!("SDelete {} {} {} {}", c.coq(), ids_coq(&touched), opt(ret.map(n)), dump_coq(&post)));
@@ -873,14 +871,6 @@ fn index_shapes(s: &mut Scen, idx_cols: &[(u64, u64)], vals: &[Vec<V>], r: &mut 
         do_query(s, 4, &c, 100, 0, *col, dist, hits);
     }
 }
-/// rollback() answered with an error (RollbackFailed: the undo ran out of B-tree entries, C09's known
-/// class rollback-over-btree-budget): from here on an index may miss rows for good
-fn rollback_failed(s: &mut Scen, dist: &mut Dist) {
-    dist.hit("budget.rollback_failed");
-    s.window = Some("rollback-failed-over-btree-budget");
-    s.window_reported = false;
-    s.sticky_window = true;
-}
 fn sync_step(s: &mut Scen, what: &str) {
     let post = s.refresh();
     s.steps.push(format!("SSync {}", dump_coq(&post)));
@@ -959,9 +949,7 @@ fn budget_scen(r: &mut Rng, w: &mut CaseWriter, dist: &mut Dist, hits: &mut Hits
                 s.tx = None;
                 dist.hit(if commit { "budget.commit" } else { "budget.rollback" });
                 sync_step(&mut s, &format!("{}->{}", if commit { "commit" } else { "rollback" }, ok));
-                if !commit && !ok {
-                    rollback_failed(&mut s, dist);
-                }
+
                 index_shapes(&mut s, &idx_cols, &vals, r, dist, hits);
                 continue;
             }
@@ -996,22 +984,16 @@ fn budget_scen(r: &mut Rng, w: &mut CaseWriter, dist: &mut Dist, hits: &mut Hits
         if s.last_failed {
             dist.hit("budget.failed_statement");
             if let Some(tx) = s.tx {
-                if !s.sticky_window {
-                    s.window = Some("open-tx-after-failed-statement");
-                    s.window_reported = false;
-                }
+                s.window = Some("open-tx-after-failed-statement");
+                s.window_reported = false;
                 index_shapes(&mut s, &idx_cols, &vals, r, dist, hits);
-                if !s.sticky_window {
-                    s.window = None;
-                }
+                s.window = None;
                 // a client rolls the transaction back after a failed statement
                 let ok = s.eng().rollback(tx).is_ok();
                 s.tx = None;
                 dist.hit("budget.rollback_after_failure");
                 sync_step(&mut s, &format!("rollback after failed statement->{ok}"));
-                if !ok {
-                    rollback_failed(&mut s, dist);
-                }
+
             }
         }
         index_shapes(&mut s, &idx_cols, &vals, r, dist, hits);
@@ -1020,9 +1002,7 @@ fn budget_scen(r: &mut Rng, w: &mut CaseWriter, dist: &mut Dist, hits: &mut Hits
         let ok = s.eng().rollback(tx).is_ok();
         s.tx = None;
         sync_step(&mut s, &format!("rollback (end)->{ok}"));
-        if !ok {
-            rollback_failed(&mut s, dist);
-        }
+
         index_shapes(&mut s, &idx_cols, &vals, r, dist, hits);
     }
     let _ = script;
